@@ -58,8 +58,8 @@ mod imp {
         }
         let mo = &m["out"];
         match op {
-            "reg" => e["out"] == "ok",
-            "ins" | "rem" | "drop" | "iter" | "idrop" => true,
+            "reg" | "iter" => e["out"] == "ok",
+            "ins" | "rem" | "drop" | "idrop" => true,
             "fetch" => mo["o"] == e["out"] && u(&m["g"]) == u(&e["g"]),
             "get" | "getmut" => {
                 if mo["o"] != e["out"] {
